@@ -1,1 +1,32 @@
-From PM Require Import Model.Step.
+(* C16 — a merged step is equivalent to the two steps it replaces.
+   Theorem for replace steps (both merge directions, open or closed slices, including the zero-size case
+   in which the merged slice is the empty slice): for every schema, valid document and pair of replace
+   steps a, b that ReplaceStep.merge merges into m, if a applies to the document, b to the result and m to
+   the document, the two results have the same token sequence (so the same size; equal token sequences of
+   documents in normal form are equal documents).  Hypotheses: from <= to for both steps, the first slice
+   is OpenOK (valid nodes off its open sides: needed to know the intermediate document is valid), the
+   second has open sides of the claimed depth.
+   That the merged step succeeds whenever the two steps do, and the merge of mark steps, are evaluated per
+   case by Corr.C16. *)
+From Coq Require Import List Arith.
+From PM Require Import Model.Data Model.Mark Model.Tree Model.Step Spec.Tokens
+  Proofs.ReplaceValid Proofs.SliceSides Proofs.TokenBasics Proofs.ReplaceTokens Proofs.SliceShape Proofs.TokenLaws
+  Proofs.StepAlgebra.
+Import ListNotations.
+
+Theorem C16_merged_replace_step_same_tokens : forall s f1 t1 s1 st1 f2 t2 s2 st2 m doc da dab dm,
+  check s doc = true ->
+  OpenOK s (sl_content s1) (sl_open_start s1) (sl_open_end s1) -> f1 <= t1 ->
+  Shape s (sl_content s2) (sl_open_start s2) (sl_open_end s2) -> f2 <= t2 ->
+  merge s (SReplace f1 t1 s1 st1) (SReplace f2 t2 s2 st2) = Some m ->
+  apply s (SReplace f1 t1 s1 st1) doc = ROk da ->
+  apply s (SReplace f2 t2 s2 st2) da = ROk dab ->
+  apply s m doc = ROk dm ->
+  DT s dm = DT s dab.
+Proof.
+  intros s f1 t1 s1 st1 f2 t2 s2 st2 m doc da dab dm Hd Ho1 H1 Hs2 H2 Hm A1 A2 A3.
+  eapply (merged_replace_step s (SReplace f1 t1 s1 st1) (SReplace f2 t2 s2 st2)); eauto.
+  - intros f t sl st E. inversion E; subst. auto.
+  - intros f t sl st E. inversion E; subst. auto.
+Qed.
+Print Assumptions C16_merged_replace_step_same_tokens.
